@@ -706,7 +706,7 @@ func (ctx Ctx) copyExpr(n ast.Node, dst ast.Expr, src ast.Expr) coq.Expr {
 		ctx.unsupported(n, "copy from non-slice type %v", ctx.typeOf(src))
 		return nil
 	}
-	e := sliceElem(ctx.typeOf(dst))
+	e := sliceElem(ctx.typeOf(dst).Underlying())
 	return coq.NewCallExpr(coq.GallinaIdent("SliceCopy"),
 		ctx.coqTypeOfType(n, e),
 		ctx.expr(dst), ctx.expr(src))
@@ -856,9 +856,9 @@ func (ctx Ctx) structSelector(info structTypeInfo, e *ast.SelectorExpr) coq.Stru
 }
 
 func (ctx Ctx) compositeLiteral(e *ast.CompositeLit) coq.Expr {
-	if _, ok := ctx.typeOf(e).Underlying().(*types.Slice); ok {
+	if sliceTy, ok := ctx.typeOf(e).Underlying().(*types.Slice); ok {
 		if len(e.Elts) == 0 {
-			elemTy := ctx.coqType(e.Type).(coq.SliceType).Value
+			elemTy := ctx.coqTypeOfType(e, sliceTy.Elem())
 			zeroLit := coq.IntLiteral{Value: 0}
 			return coq.NewCallExpr(coq.GallinaIdent("NewSlice"), elemTy, zeroLit)
 		}
@@ -991,10 +991,15 @@ func (ctx Ctx) sliceExpr(e *ast.SliceExpr) coq.Expr {
 		ctx.unsupported(e, "setting the max capacity in a slice expression is not supported")
 		return nil
 	}
+	xTy := ctx.typeOf(e.X).Underlying()
+	if _, ok := xTy.(*types.Slice); !ok {
+		ctx.unsupported(e, "slice expression on non-slice type %v", ctx.typeOf(e.X))
+		return nil
+	}
 	x := ctx.expr(e.X)
 	if e.Low != nil && e.High == nil {
 		return coq.NewCallExpr(coq.GallinaIdent("SliceSkip"),
-			ctx.coqTypeOfType(e, sliceElem(ctx.typeOf(e.X))),
+			ctx.coqTypeOfType(e, sliceElem(xTy)),
 			x, ctx.expr(e.Low))
 	}
 	if e.Low == nil && e.High != nil {
@@ -1003,7 +1008,7 @@ func (ctx Ctx) sliceExpr(e *ast.SliceExpr) coq.Expr {
 	}
 	if e.Low != nil && e.High != nil {
 		return coq.NewCallExpr(coq.GallinaIdent("SliceSubslice"),
-			ctx.coqTypeOfType(e, sliceElem(ctx.typeOf(e.X))),
+			ctx.coqTypeOfType(e, sliceElem(xTy)),
 			x, ctx.expr(e.Low), ctx.expr(e.High))
 	}
 	if e.Low == nil && e.High == nil {
@@ -1165,7 +1170,7 @@ func (ctx Ctx) derefExpr(e ast.Expr) coq.Expr {
 	}
 	return coq.DerefExpr{
 		X:  ctx.expr(e),
-		Ty: ctx.coqTypeOfType(e, ptrElem(ctx.typeOf(e))),
+		Ty: ctx.coqTypeOfType(e, ptrElem(ctx.typeOf(e).Underlying())),
 	}
 }
 
